@@ -167,6 +167,76 @@ func c19R1(r *Report) {
 			host = extractOf(c, 0)
 		}
 	})
+	// the whole validation may live in a helper that is handed r.Host and answers with an error (checkHost(r.Host)
+	// (int, error)): the helper is then judged as checkLocal would be (its nil-error returns are the acceptances), and
+	// checkLocal must return true only behind that error tested nil
+	judged := cl
+	accepts := func(ret *ssa.Return) bool {
+		b, isb := constBool(ret.Results[0])
+		return !(isb && !b)
+	}
+	if host == nil {
+		for _, ci := range callsIn(cl) {
+			c, ok := ci.(*ssa.Call)
+			if !ok || c.Call.IsInvoke() {
+				continue
+			}
+			h := c.Call.StaticCallee()
+			if h == nil || h.Blocks == nil || relPkg(h) != "http" || h.Signature.Results().Len() == 0 {
+				continue
+			}
+			nres := h.Signature.Results().Len()
+			if !isErrorType(h.Signature.Results().At(nres - 1).Type()) {
+				continue
+			}
+			argIdx := -1
+			for i, a := range c.Call.Args {
+				if fv, base := loadedField(a); fv != nil && fv.Name() == "Host" && base == ssa.Value(cl.Params[1]) {
+					argIdx = i
+				}
+			}
+			if argIdx < 0 || argIdx >= len(h.Params) {
+				continue
+			}
+			var hh ssa.Value
+			allInstrs(h, func(in ssa.Instruction) {
+				if sc, isC := in.(*ssa.Call); isC && isStdCall(sc, "net", "", "SplitHostPort") && sc.Call.Args[0] == ssa.Value(h.Params[argIdx]) {
+					hh = extractOf(sc, 0)
+				}
+			})
+			if hh == nil {
+				continue
+			}
+			// checkLocal's side: true only behind the helper's error tested nil
+			var errv ssa.Value = c
+			if nres > 1 {
+				errv = extractOf(c, nres-1)
+			}
+			okCl := errv != nil
+			for _, ret := range returnsOf(cl) {
+				if !accepts(ret) || !okCl {
+					continue
+				}
+				missing, reached := pathsMissing(cl.Blocks[0].Instrs[0], -1, func(in ssa.Instruction) bool { return in == ssa.Instruction(ret) }, nil, []edgeReq{{Name: "helper's error is nil", Match: func(cond ssa.Value, pol bool) bool {
+					x, isNil, okn := nilFact(Guard{Cond: cond, Pol: pol})
+					return okn && isNil && x == errv
+				}}})
+				if reached == 0 || len(missing) > 0 {
+					okCl = false
+				}
+			}
+			if !okCl {
+				continue
+			}
+			r.Fn(h)
+			host, judged = hh, h
+			ne := newNilEnv(p)
+			accepts = func(ret *ssa.Return) bool {
+				res := retResults(ret)
+				return len(res) > 0 && ne.At(res[len(res)-1], ret.Block()) != NonNil
+			}
+		}
+	}
 	if host == nil {
 		r.Fail("R1", "checkLocal/host", cl.Pos(), "checkLocal no longer derives the host with net.SplitHostPort(r.Host)")
 		return
@@ -199,13 +269,12 @@ func c19R1(r *Report) {
 	}}
 	nTrue := 0
 	okAll := true
-	for _, ret := range returnsOf(cl) {
-		b, isb := constBool(ret.Results[0])
-		if isb && !b {
+	for _, ret := range returnsOf(judged) {
+		if !accepts(ret) {
 			continue
 		}
 		nTrue++
-		missing, reached := pathsMissing(cl.Blocks[0].Instrs[0], -1, func(in ssa.Instruction) bool { return in == ssa.Instruction(ret) }, nil, []edgeReq{accept})
+		missing, reached := pathsMissing(judged.Blocks[0].Instrs[0], -1, func(in ssa.Instruction) bool { return in == ssa.Instruction(ret) }, nil, []edgeReq{accept})
 		if reached == 0 || len(missing) > 0 {
 			okAll = false
 		}
